@@ -112,6 +112,26 @@ func scr(k string) templ.ComponentScript {
 	return templ.ComponentScript{Name: "scr_" + k, Function: "", Call: templ.SafeScript("scr", k), CallInline: templ.SafeScriptInline("scr", k)}
 }
 
+// flushWith is a hand-written layer that hands a COMPONENT (not a generated block) to templ.Flush() as its children.
+func flushWith(c templ.Component) templ.Component {
+	return templ.ComponentFunc(func(ctx context.Context, w io.Writer) error {
+		ctx = templ.InitializeContext(ctx)
+		err := templ.Flush().Render(templ.WithChildren(ctx, c), w)
+		templ.ClearChildren(ctx)
+		return err
+	})
+}
+
+// eager renders c at once with the given context (i.e. while the call expression is being evaluated) and returns the
+// bytes as a raw component.
+func eager(ctx context.Context, c templ.Component) templ.Component {
+	var b bytes.Buffer
+	if err := c.Render(ctx, &b); err != nil {
+		return templ.Raw("!" + err.Error())
+	}
+	return templ.Raw("<e>" + b.String() + "</e>")
+}
+
 func ignore() templ.Component {
 	return templ.ComponentFunc(func(ctx context.Context, w io.Writer) error {
 		_, err := io.WriteString(w, "(i)")
@@ -510,6 +530,10 @@ func (p *printer) node(n *node, lvl int) {
 	switch n.kind {
 	case "text":
 		p.sb.WriteString(n.text)
+		if p.layout && p.r.Intn(10) == 0 {
+			// blanks at the end of a text run (they are part of the text when a line break follows)
+			p.sb.WriteString(rng.Pick(p.r, []string{" ", "  ", "\t"}))
+		}
 	case "expr":
 		if p.layout && p.r.Intn(6) == 0 {
 			p.sb.WriteString("{" + n.text + "}")
